@@ -46,10 +46,16 @@
 //! * `c18-p3-spill-file-leaked-arc.diff` — `InProgressSpillFile::finish` leaks one `Arc` of the finished spill
 //!   file → VIOLATION ("resources not released: (0, 223568, 4)": disk bytes accounted and 4 files left).
 //!
-//! Related finding (made by C20, see c20.rs): under a memory limit the nested-loop join's fallback re-executes
-//! its left child and panics when a RepartitionExec is below it. With MemTable inputs that plan shape did not
-//! come up in C18's runs (the small side is planned as a repartition-free left input), so nothing is excluded
-//! here; should a thorough run meet it, it is the same defect (fix: /verif/fixes/C20-nlj-fallback-…diff).
+//! **Genuine defects** (both in `NestedLoopJoinExec`'s out-of-memory fallback, found through C20 and
+//! reproduced here with a plain 16 KiB GreedyMemoryPool over MemTables; details in c20.rs): (A) the fallback
+//! re-executes the already executed left child → task panic "partition not used yet" when a RepartitionExec
+//! is below it (fix /verif/fixes/C20-nlj-fallback-reexecutes-left-child.diff); (B) with several right
+//! partitions LEFT / LEFT SEMI / LEFT ANTI / LEFT MARK joins emit "unmatched" left rows per partition →
+//! wrong result under the memory limit (regression case
+//! /verif/regressions/C18/c18/nlj-fallback-multi-partition-left-emission.json: `t RIGHT JOIN u`, expected 1832
+//! rows, got 1871; fix /verif/fixes/C18-nlj-fallback-multi-partition-left-emission.diff). Until the fixes are
+//! committed the class NestedLoop × (target_partitions ≥ 2 or MemTable partitions ≥ 2) is excluded through
+//! `known_signature`.
 use crate::data::{DataSpec, Which, multiset_diff, sequence_diff, sub_multiset};
 use crate::env::*;
 use crate::query::*;
@@ -278,6 +284,13 @@ impl Property for C18 {
             "the disk-quota message of FileSpillWriter (an IoError) counts as resource exhaustion when a tiny quota is part of the case".into(),
             "a residue that disappears only once the tokio runtime is shut down is reported inconclusive, not a violation (task-abort latency is C19's subject)".into(),
         ]
+    }
+    fn known_signature(&self, case: &Case) -> Option<String> {
+        let nlj = case.query.shape.join_algo() == Some(JoinAlgo::NestedLoop);
+        if nlj && (case.cfg.target_partitions >= 2 || case.cfg.mem_partitions >= 2) {
+            return Some(crate::c20::NLJ_FALLBACK_SIGNATURE.to_string());
+        }
+        None
     }
     fn run(&self, case: &Case) -> CaseResult {
         let q = &case.query;
